@@ -232,6 +232,7 @@ pub fn generate_c12(thorough: bool, seed: u64, part: (usize, usize), em: &mut Em
             emit(em, 1004, 800, 600, 0x409, "rdp-rs", &ops, Some(&hist));
         } }
     }
+    if part.0 == 0 { many_activations(em, &mut r); }
     let n = if thorough { 4000 } else { 400 };
     for _ in 0..n {
         let (uid, w, h, lay, name) = session_params(&mut r);
@@ -248,7 +249,7 @@ pub fn generate_c12(thorough: bool, seed: u64, part: (usize, usize), em: &mut Em
     }
 }
 
-fn activate(g: &mut Gen, ops: &mut Vec<String>, hist: &mut Vec<String>) { for l in &[0u64, 1, 2, 3, 5] { let (o, h) = g.letter(*l); ops.push(o); hist.push(h); } }
+pub fn activate(g: &mut Gen, ops: &mut Vec<String>, hist: &mut Vec<String>) { for l in &[0u64, 1, 2, 3, 5] { let (o, h) = g.letter(*l); ops.push(o); hist.push(h); } }
 
 /// C11: event sequences in the active state, interleaved with server traffic
 pub fn generate_c11(thorough: bool, seed: u64, part: (usize, usize), em: &mut Emitter) {
@@ -510,4 +511,20 @@ pub fn generate_c06(thorough: bool, seed: u64, part: (usize, usize), em: &mut Em
         }
     }
     em.alloc_limit = 0;
+}
+
+/// one session that is deactivated and re-activated many times (each demand-active with its own capability sets and,
+/// half of the time, a new share id): every demand-active is answered in full, input is taken after each font map
+pub fn many_activations(em: &mut Emitter, r: &mut Rng) {
+    for rounds in &[6usize, 16, 40] {
+        let mut g = Gen { r: &mut *r, share: 0x000103ea };
+        let (mut ops, mut hist) = (vec![], vec![]);
+        for k in 0..*rounds {
+            activate(&mut g, &mut ops, &mut hist);
+            ops.push(format!("P{}:2:0:0", k)); hist.push("I".into());
+            let (o, h) = g.letter(8); ops.push(o); hist.push(h);
+            ops.push("K30:1".into()); hist.push("I".into());
+        }
+        emit(em, 1004, 800, 600, 0x409, "rdp-rs", &ops, Some(&hist));
+    }
 }
